@@ -812,7 +812,10 @@ func (s *AbsfsNFS) ReadDirWithContext(ctx context.Context, dir *NFSNode) ([]*NFS
 				}
 				node, err := s.Lookup(entryPath)
 				if err != nil {
-					continue
+					if errors.Is(err, os.ErrNotExist) {
+						continue // removed since the listing was cached
+					}
+					return nil, fmt.Errorf("readdir: lookup of %s: %w", entryPath, err)
 				}
 				nodes = append(nodes, node)
 			}
@@ -869,7 +872,10 @@ func (s *AbsfsNFS) ReadDirWithContext(ctx context.Context, dir *NFSNode) ([]*NFS
 		}
 		node, err := s.Lookup(entryPath)
 		if err != nil {
-			continue
+			if errors.Is(err, os.ErrNotExist) {
+				continue // removed since the directory was read
+			}
+			return nil, fmt.Errorf("readdir: lookup of %s: %w", entryPath, err)
 		}
 		nodes = append(nodes, node)
 	}
